@@ -33,6 +33,8 @@ mod libsim;
 mod oracle;
 mod rng;
 mod rsparse;
+#[cfg(test)]
+mod rewrite_tests;
 mod schedule;
 mod seams;
 mod sim;
